@@ -68,6 +68,18 @@ Definition c01_wild_discovery_refeed_refuted : Prop :=
     c01_discipline_b LNone t = true /\ c01_error_b (c_fail_at cfg) 0 t = true /\
     c01_refeed_b [] h t = false.
 
+(* Witness 4 (the hypothesis "r0's id is non-empty" of the theorems below is necessary): a configured LIB whose
+   ID IS EMPTY (forkable.WithExclusiveLIB(bstream.NewBlockRef("", 5)): HasLIB is true, the LIB id is ""), a
+   history in the class lib_ok_b whose first block has an empty parent id: ReversibleSegment reaches the LIB id
+   "" through the empty link, AddLink does not recognise the stored block when it is fed again (links[id] = ""),
+   it is delivered as New again: discipline AND re-feed clause fail (the pass-through behaviour of
+   c01_passthrough_roots_witness, here inside c01_scope). *)
+Definition c01_empty_lib_id_refuted : Prop :=
+  exists cfg r0 h,
+    ri r0 = 0 /\ c01_scope cfg (LExcl r0) h /\ c_fail_at cfg = None /\ lib_ok_b (LExcl r0) h = true /\
+    let t := fk_run cfg (fs_init (LExcl r0)) h in
+    c01_discipline_b (LExcl r0) t = false /\ c01_refeed_b [] h t = false.
+
 (* ================================================================ what DOES hold for arbitrary declarations *)
 
 (* the same configuration with a handler that never fails *)
@@ -139,3 +151,11 @@ Definition c01_wild_mono_subsumes : Prop :=
     f_new (c_filter cfg) = true -> f_undo (c_filter cfg) = true ->
     moving_scope2_b r0 h = true ->
     wf_b h = true /\ ri r0 <> 0 /\ lib_mono_b (cfg_nofail cfg) (fs_init m) h = true.
+
+(* ... and so does the class of c01_discovery_roots_partial *)
+Definition c01_wild_discovery_mono_subsumes : Prop :=
+  forall cfg h,
+    c_hold cfg = true -> c_incl cfg = false ->
+    f_new (c_filter cfg) = true -> f_undo (c_filter cfg) = true ->
+    disc_scope2_b h = true ->
+    wf_b h = true /\ lib_mono_b (cfg_nofail cfg) (fs_init LNone) h = true.
